@@ -43,6 +43,7 @@ int main(void)
 			D = (struct drv_rawdisp *) (void *) obj;
 			have = 1;
 			rc_on = 0;
+			stale_id = 0;
 			nreg = 1; /* registration 0 is the fallback */
 			if (drv_w[2][0] == 'f') obj->set_error(handler, &regs[0]);
 			else if (drv_w[2][0] == 'n') obj->set_error(0, 0);
@@ -51,7 +52,12 @@ int main(void)
 			continue;
 		}
 		if (!have) { puts("bad-op"); continue; }
-		if (!strcmp(op, "rc") && drv_nw == 3 && (!strcmp(drv_w[2], "on") || !strcmp(drv_w[2], "off"))) {
+		if (!strcmp(op, "stale") && drv_nw == 3) {
+			if (parse_id(drv_w[2], &id)) { puts("bad-op"); continue; }
+			stale_id = id;
+			result("ok", "0", 0);
+		}
+		else if (!strcmp(op, "rc") && drv_nw == 3 && (!strcmp(drv_w[2], "on") || !strcmp(drv_w[2], "off"))) {
 			rc_on = drv_w[2][1] == 'n';
 			result("ok", "0", 0);
 		}
@@ -100,6 +106,7 @@ int main(void)
 			if (isnull) { free(dat); puts("bad-op"); continue; }
 			message msg(dat, dlen);
 			ev.msg = &msg;
+			if (dlen) ev.id = stale_id;
 			cur_nest = drv_w[2][0] == 'c';
 			int ret = mpt_dispatch_emit(obj, &ev);
 			result_ret(ret, ev.id);
